@@ -8,10 +8,10 @@
    handles the environment holds by having written the counter field), the handle slots [hs]
    and [pend], the handles in local variables of the running function.  [handles s] is the
    multiset (list) of ALL handles, [held s o] the number of handles on object [o].  [mrun init ops]
-   runs a history of the 24 operations (addref, unref, clone, assignment through conversion,
+   runs a history of the 26 operations (addref, unref, clone, assignment through conversion,
    traits init/fini, reference array copy, array clone/clear, detach, rawdata array member, reply
-   defer, forced counters, reference<T> set_instance/assign/copy/move/detach) from the empty
-   state; [final init ops] is its last state, [None] after a use of a destroyed object ([Fault]).
+   defer, forced counters, reference<T> set_instance/assign/copy/move/detach, metatype::generic
+   create/clone) over the 15 object kinds from the empty state; [final init ops] is its last state, [None] after a use of a destroyed object ([Fault]).
    All theorems quantify over ALL histories [ops] (induction over the list, no bound). *)
 From MptV Require Import Base.Mem C15.RefcountModel C15.RefcountSpec C15.RefcountCounter C15.RefcountInv
   C15.RefcountSteps C15.RefcountOps C15.RefcountRun C15.RefcountAssign C15.RefcountRel C15.RefcountFrame
@@ -93,7 +93,7 @@ Theorem C15_refinement_preserves_observation :
     (forall t, sobserve ss t = strip (observe s t)) /\ sleaked ss = leaked s.
 Proof. exact (fun s ss RF => conj (observe_ref s ss RF) (sleaked_ref s ss RF)). Qed.
 
-(* STEP refinement, every one of the 24 operations, from EVERY pair of related states (not only reachable
+(* STEP refinement, every one of the 26 operations, from EVERY pair of related states (not only reachable
    ones): the model step does not fault, returns exactly the specification's output and ends in a state
    related to the specification's next state *)
 Theorem C15_step_refines_spec :
@@ -272,6 +272,18 @@ Example C15_ex_owner_history :
   | None => False
   end.
 Proof. vm_compute. repeat split. discriminate. Qed.
+
+(* clone of a counted kind makes a NEW object with its own count of 1 and leaves the source alone (file
+   iterator created by name, metatype::generic); a file iterator without name refuses to clone *)
+Example C15_ex_clone_counted :
+  map (fun r => match r with Obs t d _ _ => Some (t, d) | ObsFault => None end)
+      (fst (mrun init [ONew KIterName 0; OClone 0 1; OAddref 1 2; OUnref 0; ONew KIterFd 3; OClone 3 4;
+                       XGen 12; XClone 12 15; XDrop 12]%nat))
+  = [Some (OD, [DCnt 1]); Some (OD, [DCnt 1; DCnt 1]); Some (ORet 2, [DCnt 1; DCnt 2]); Some (OD, [DDead; DCnt 2]);
+     Some (OD, [DDead; DCnt 2; DCnt 1]); Some (OE, [DDead; DCnt 2; DCnt 1]);
+     Some (OD, [DDead; DCnt 2; DCnt 1; DCnt 1]); Some (OD, [DDead; DCnt 2; DCnt 1; DCnt 1; DCnt 1]);
+     Some (OD, [DDead; DCnt 2; DCnt 1; DDead; DCnt 1])].
+Proof. vm_compute. reflexivity. Qed.
 
 (* the hypotheses of the refusal theorem are met by a reachable state (counter forced to the maximum),
    those of the assignment theorem by another one (a counted metatype assigned over a geninfo) *)
